@@ -300,6 +300,12 @@ func atomTag(v any) string {
 		t := int64(0)
 		if inRange {
 			t = int64(x)
+			// oidc.Time stands for instants: time.Unix counts from year 1 (62135596800 s before 1970) in an int64, the seconds
+			// beyond 1<<63-1-62135596800 are none (finding F-C01a, fixed: they must be refused)
+			inRange = t <= math.MaxInt64-62135596800
+			if !inRange {
+				t = 0
+			}
 		}
 		return fmt.Sprintf("f:%d:%v", t, inRange)
 	default:
@@ -327,7 +333,7 @@ func describeDoc(text string) (jdoc, bool) {
 }
 
 var docPool = []string{`"a"`, `""`, `["a","b"]`, `[]`, `["a",1]`, `[null]`, `[["a"]]`, `null`, `1`, `0`, `-5`, `1700000000`, `1.9`, `-1.9`, `1e300`, `-1e300`,
-	`9223372036854775807`, `9.3e18`, `true`, `false`, `"true"`, `"false"`, `"True"`, `{}`, `{"a":1}`, `"2023-01-02T03:04:05Z"`, `"2023-01-02T03:04:05+02:00"`,
+	`9223372036854775807`, `9.3e18`, `9223371974719178752`, `9223371974719179776`, `9223371974719177728.0`, `9.223371974719180800e18`, `9223372036854774784`, `-9223372036854775808`, `-9223372036854777856`, `true`, `false`, `"true"`, `"false"`, `"True"`, `{}`, `{"a":1}`, `"2023-01-02T03:04:05Z"`, `"2023-01-02T03:04:05+02:00"`,
 	`"2023-01-02"`, `"not a time"`, `"a b c"`, `" "`, `"é x"`, `[true]`, `[1.5,"x"]`, `1700000000.999`, `"0001-01-01T00:00:00Z"`}
 
 func isUnmarshalErr(err error) bool {
